@@ -18,6 +18,7 @@ import (
 	"os"
 	"sort"
 	"strings"
+	"time"
 
 	"grol.io/grol/eval"
 	"grol.io/grol/object"
@@ -156,6 +157,17 @@ func canonShort(o object.Object) string {
 	return short(Canon(o))
 }
 
+// sessState: a fresh state with the session's configuration. The scenarios whose values are shaped by a RUNNING program
+// (nesting thousands of levels deep) get the interpreter's default recursion limit instead of the harness's small one.
+func sessState(sc sessCase) (*eval.State, *bytes.Buffer) {
+	s, out := newState()
+	s.MaxValueLen = sc.maxLen
+	if strings.HasPrefix(sc.kind, "runtime-") {
+		s.MaxDepth = eval.DefaultMaxDepth
+	}
+	return s, out
+}
+
 func checkSessions(c *Ctx, sc sessCase) {
 	c.Eval()
 	c.Count("session-scenario:" + sc.kind)
@@ -170,8 +182,7 @@ func checkSessions(c *Ctx, sc sessCase) {
 	var lastOut, lastRealOut *bytes.Buffer
 	all := append(append([][]string{}, sc.sessions...), nil)
 	for i, inputs := range all {
-		s, out := newState()
-		s.MaxValueLen = sc.maxLen
+		s, out := sessState(sc)
 		errL := repl.AutoLoad(s, opts)
 		le := ""
 		if errL != nil {
@@ -183,11 +194,24 @@ func checkSessions(c *Ctx, sc sessCase) {
 		if i > 0 {
 			compareRestored(c, sc, rp, fmt.Sprintf("session %d after auto-load", i+1), prev, s, le)
 		}
+		inputLimit := 300 * time.Millisecond
+		if strings.HasPrefix(sc.kind, "runtime-") {
+			inputLimit = 20 * time.Second // building the value is the point of the scenario
+		}
 		for _, in := range inputs {
-			evalQuiet(s, out, in)
+			if _, errs := evalQuietD(s, out, in, inputLimit); deadlineHit(errs) && strings.HasPrefix(sc.kind, "runtime-") {
+				c.Count("harness-resource-limit:input-deadline")
+				return // the value the scenario is about was not built: no verdict
+			}
 		}
 		out.Reset()
 		prev = snap(s, sc.maxLen)
+		if len(prev.bytes) > 1500000 {
+			// keep a saved line well below the size at which the recursive parser exhausts the Go stack (a 3 MB run of `[`
+			// kills the clean tree with a stack overflow that nobody can recover): a limit of the machinery
+			c.Count("harness-resource-limit:state-file-over-1.5MB")
+			return
+		}
 		// each saved binding occupies exactly one line of the file
 		if nl := len(splitLines(prev.bytes)); nl != prev.n {
 			cls := "other"
@@ -228,14 +252,17 @@ func checkSessions(c *Ctx, sc sessCase) {
 		}
 	}
 	// explicit save / load of the last state (whole file)
-	evalQuiet(last, lastOut, `save("st")`)
+	evalQuietD(last, lastOut, `save("st")`, 0)
 	lastOut.Reset()
 	if fileB, _ := os.ReadFile("st.gr"); !bytes.Equal(fileB, prev.bytes) {
 		failf(c, "save-extension-differs-from-SaveGlobals", rp, fmt.Sprintf("%q vs %q", short(string(fileB)), short(string(prev.bytes))))
 	}
-	sB, outB := newState()
-	sB.MaxValueLen = sc.maxLen
-	_, errsB := evalQuiet(sB, outB, `load("st")`)
+	sB, outB := sessState(sc)
+	_, errsB := evalQuietD(sB, outB, `load("st")`, 0)
+	if deadlineHit(errsB) {
+		c.Count("harness-resource-limit:load-deadline")
+		return
+	}
 	outB.Reset()
 	compareRestored(c, sc, rp, "load(\"st\")", prev, sB, strings.Join(errsB, "; "))
 	if reported() {
@@ -246,9 +273,14 @@ func checkSessions(c *Ctx, sc sessCase) {
 		return
 	}
 	for _, call := range sc.calls {
+		sawDeadline = false
 		r1 := callObs(lastReal, lastRealOut, call)
 		r2 := callObs(last, lastOut, call)
 		c.Count("session-function-call")
+		if sawDeadline {
+			c.Count("harness-resource-limit:call-deadline")
+			continue
+		}
 		if r1 != r2 {
 			failf(c, "restart:"+sc.kind+":function-behaviour-changed", rp, fmt.Sprintf("%s gives %s, after restart %s (%s)", call, r1, r2, lastErrs))
 			break
@@ -610,6 +642,43 @@ func (x *gen) macroCase() sessCase {
 	return sessCase{kind: "function-made-by-macro", maxLen: []int{0, 4000}[x.intn(2)], sessions: [][]string{st, {"zz = 2"}}, calls: calls}
 }
 
+// ---- values whose SHAPE no literal of a generated program has but a running program builds: nesting hundreds to
+// ten thousand levels deep (arrays in arrays, maps in maps, mixed), very wide containers, long strings. They are
+// saved by an unbounded recursive Inspect and read back through the parser and the evaluator. The restored value is
+// compared whole (canonical dump) and by probes that walk it.
+func (x *gen) runtimeShapeCase(depths []int) sessCase {
+	n := depths[x.intn(len(depths))]
+	limit := []int{0, 0, 4000}[x.intn(3)]
+	st := []string{"func walk(v,n){for n {v=v[0]}; v}", "func walkm(v,n){for n {v=v[\"k\"]}; v}", "first1 = 1"}
+	var calls []string
+	switch x.intn(6) {
+	case 0:
+		st = append(st, "a = [1]", fmt.Sprintf("for %d {a=[a]}", n))
+		calls = append(calls, fmt.Sprintf("walk(a,%d)", n+1), fmt.Sprintf("walk(a,%d)", n), "len(a)")
+	case 1:
+		st = append(st, "m = {\"k\":1}", fmt.Sprintf("for %d {m={\"k\":m}}", n))
+		calls = append(calls, fmt.Sprintf("walkm(m,%d)", n+1), "len(m)")
+	case 2:
+		st = append(st, "a = [\"x\"]", fmt.Sprintf("for %d {a=[{\"k\":a}]}", n/2))
+		calls = append(calls, "len(a[0][\"k\"])", "a[0][\"k\"][0][\"k\"] == nil")
+	case 3:
+		st = append(st, fmt.Sprintf("w = [1,2.5,\"s\"]*%d", 1000+x.intn(9000)), "wm = {}", fmt.Sprintf("for i=%d {wm[i]=[i]}", 100+x.intn(400)))
+		calls = append(calls, "len(w)", "w[len(w)-1]", "len(wm)", "wm[57]")
+	case 4:
+		st = append(st, fmt.Sprintf("ls = \"ab\\n\\\"\"*%d", 10000+x.intn(30000)))
+		calls = append(calls, "len(ls)", "ls[len(ls)-1]")
+	default:
+		k := n/4 + 1
+		if k > 400 {
+			k = 400 // the text of this shape grows with the SQUARE of the depth (a[1] is itself k deep): ~250 KB at 400
+		}
+		st = append(st, "a = [[1],[2]]", fmt.Sprintf("for %d {a=[a,[a[1]]]}", k))
+		calls = append(calls, "len(a)", fmt.Sprintf("walk(a,%d)", k+1))
+	}
+	st = append(st, "zlast = \"after\"")
+	return sessCase{kind: "runtime-shaped-value", maxLen: limit, sessions: [][]string{st, {"b = 7"}}, calls: calls}
+}
+
 func (x *gen) stringFuncCase() sessCase {
 	var st, calls []string
 	st = append(st, "aa = "+x.str())
@@ -644,6 +713,10 @@ var sessionCorpus = []sessCase{
 		"mkratio = macro() { quote(v => v / unquote(1.25 * 4)) }", "ratio = mkratio()", "mki = macro() { quote(v => v / unquote(2+3)) }", "ri = mki()",
 		"mkb = macro() { quote(v => [v, unquote(1<2), unquote(1.5*3)]) }", "rb = mkb()"}, {"zz = 1"}},
 		[]string{"half(90)", "ratio(1)", "ri(1)", "ri(2.5)", "rb(1)"}},
+	// a value nested deeper (at run time) than any literal: arrays 10 050 deep, maps 1 000 deep; saved without limit
+	{"runtime-shaped-value", 0, [][]string{{"func walk(v,n){for n {v=v[0]}; v}", "a = [1]", "for 10050 {a=[a]}", "b = 7", "s = \"after\""}, {"c = 1"}}, []string{"walk(a,10051)", "walk(a,10050)", "b", "s"}},
+	{"runtime-shaped-value", 0, [][]string{{"func walkm(v,n){for n {v=v[\"k\"]}; v}", "m = {\"k\":1}", "for 1000 {m={\"k\":m}}", "z = 1"}}, []string{"walkm(m,1001)"}},
+	{"runtime-shaped-value", 4000, [][]string{{"func walk(v,n){for n {v=v[0]}; v}", "a = [1]", "for 1000 {a=[a]}", "z = 1"}}, []string{"walk(a,1001)"}},
 	// aliases
 	{"alias-name-redefined", 0, [][]string{{"func f(x){1}", "k = f", "func f(x){2}"}}, []string{"f(0)", "k(0)"}},
 	{"alias-name-redefined", 0, [][]string{{"func f(x){1}", "a = f", "func f(x){2}"}}, []string{"f(0)", "a(0)"}},
@@ -678,6 +751,12 @@ func runSessions(c *Ctx, x *gen) {
 		checkSessions(c, x.stringFuncCase())
 		checkSessions(c, x.adjacencyCase())
 		checkSessions(c, x.macroCase())
+		if i%4 == 0 {
+			checkSessions(c, x.runtimeShapeCase([]int{100, 1000, 1000, 3000}))
+		}
+		if i%40 == 7 {
+			checkSessions(c, x.runtimeShapeCase([]int{10050, 12000}))
+		}
 	}
 	os.Remove(".gr")
 	os.Remove("st.gr")
